@@ -176,9 +176,11 @@ func runC19(c c19Case) (bool, error) {
 	if c.Logical == "date" {
 		unit = 24 * time.Hour
 	}
-	diff := tm.Sub(back)
-	if diff <= -unit || diff >= unit {
-		return true, fmt.Errorf("%s: %v written and read back as %v: more than one unit apart", c.Logical, tm.UTC(), back.UTC())
+	if want := tm.Truncate(unit); c.Logical != "date" && !back.Equal(want) {
+		return true, fmt.Errorf("%s: %v written and read back as %v, want the time at that resolution %v", c.Logical, tm.UTC(), back.UTC(), want.UTC())
+	}
+	if diff := tm.Sub(back); diff < 0 || diff >= unit {
+		return true, fmt.Errorf("%s: %v written and read back as %v: not the same %v", c.Logical, tm.UTC(), back.UTC(), unit)
 	}
 	nonMultiple := tm.UnixNano()%int64(unit) != 0
 	return c.Sec < 0 || nonMultiple, nil
